@@ -13,7 +13,44 @@ fn budget(t: Tier) -> u64 {
     }
 }
 
+/// The library embedded in a program that has created a server for another seed earlier in its
+/// life (a multi-tenant host, a test harness, an operator tool that rotates keys in-process): the
+/// identity of a server is a function of *its* seed, not of whatever the process saw first.
+fn gen_embedded(seed: u64) -> Plan {
+    let mut rng = Rng::derive(seed, "c10-embedded");
+    let mut plan = Plan::new("C10", "c10.embedded_second_identity", seed);
+    let mut s = ServerSpec::basic(Mode::W, &seed_hex(&mut rng));
+    s.workers = 1 + rng.below(3) as i64;
+    s.batch_size = *rng.pick(&[1i64, 8, 64]);
+    s.log_level = Some(0);
+    world_knobs(&mut rng, &mut plan, false);
+    plan.world.flow_hash = None;
+    plan.world.rcv_cap = 4096;
+    plan.params.insert("prior_identity".into(), 1 + rng.below(1_000_000) as i64);
+    let workers = s.workers as u64;
+    plan.server = Some(s);
+    let mut ctr = seed ^ 0xe10;
+    let mut t = 8_000u64;
+    for _ in 0..(1 + rng.below(3)) {
+        for k in 0..(workers * 3 + rng.below(8)) {
+            ctr += 1;
+            let req = match rng.below(5) {
+                0 => ReqSpec::RawVer { size: 1024, nonce_seed: ctr, ver: Some(r::VER_DRAFT13.to_le_bytes().to_vec()), srv: SrvMode::Correct },
+                1 => ReqSpec::RawVer { size: 1024, nonce_seed: ctr, ver: Some(r::VER_DRAFT13.to_le_bytes().to_vec()), srv: SrvMode::Other(rng.next_u64()) },
+                _ => valid_spec(&mut rng, &mut ctr),
+            };
+            plan.step(t + k * *rng.pick(&[0u64, 2, 40]), Action::Send { sock: rng.below(48) as u32, req });
+        }
+        t += *rng.pick(&[3_000u64, 40_000]);
+    }
+    settle(&mut plan, 500);
+    plan
+}
+
 fn gen(seed: u64, idx: u64, _tier: Tier) -> Plan {
+    if idx % 10 == 9 {
+        return gen_embedded(seed);
+    }
     let mut rng = Rng::derive(seed, "c10");
     let mut plan = Plan::new("C10", "c10.restarts", seed);
     let mut s = ServerSpec::basic(Mode::F, &seed_hex(&mut rng));
